@@ -140,13 +140,17 @@ func (s *Solver) Close() {
 
 // CheckSat returns "sat", "unsat", "unknown" or "error: ...".
 func (s *Solver) CheckSat(timeout time.Duration) string {
+	return s.CheckSatCmd("(check-sat)\n", timeout)
+}
+
+func (s *Solver) CheckSatCmd(cmd string, timeout time.Duration) string {
 	t0 := time.Now()
 	defer func() { s.Time += time.Since(t0); s.Querys++ }()
 	pre := ""
 	if !strings.HasPrefix(s.name, "cvc5") {
 		pre = fmt.Sprintf("(set-option :timeout %d)\n", timeout.Milliseconds())
 	}
-	lines, err := s.roundTrip(pre+"(check-sat)\n", timeout+10*time.Second)
+	lines, err := s.roundTrip(pre+cmd, timeout+10*time.Second)
 	if err != nil {
 		return "unknown (" + err.Error() + ")"
 	}
